@@ -832,7 +832,8 @@ class DistGeometric(DistDiscrete):
             raise ValueError(f"parameter p {p} not in (0, 1]")
         self._p = p
         # p == 1: every trial succeeds, log(1 - p) is minus infinity
-        self._lnp = math.log(1.0 - self._p) if self._p < 1.0 else -math.inf
+        # (log1p: for p below 1.1e-16 the difference 1 - p rounds to one)
+        self._lnp = math.log1p(-self._p) if self._p < 1.0 else -math.inf
         
     def draw(self) -> int:
         """
@@ -909,7 +910,8 @@ class DistNegBinomial(DistDiscrete):
         self._s = s
         # helper variable equal to ln(1-p) to avoid repetitive calculation.
         # p == 1: every trial succeeds, log(1 - p) is minus infinity
-        self._lnp = math.log(1.0 - self._p) if self._p < 1.0 else -math.inf
+        # (log1p: for p below 1.1e-16 the difference 1 - p rounds to one)
+        self._lnp = math.log1p(-self._p) if self._p < 1.0 else -math.inf
         
     def draw(self) -> int:
         """
